@@ -34,7 +34,7 @@ def greedy_anomaly_selection(
         anomaly_end = anomaly_ends[argmax]
         anomalies.append((anomaly_start, anomaly_end))
         # remove intervals that overlap with the detected segment anomaly.
-        scores[(anomaly_end > starts) & (anomaly_start < ends)] = 0.0
+        scores[(anomaly_end > starts) & (anomaly_start < ends)] = -np.inf
     anomalies.sort()
     return anomalies
 
